@@ -252,7 +252,7 @@ def save_ordering(ctx, F):
     ctx.ob("R-TABLE", "binary-mark", okb, "the binary comment is written only when all its bytes are >= 128", bm.where(), what="write_binary_mark can write a binary comment with bytes below 128 (or lost its check)")
 
 
-def run(ctx):
+def _run(ctx):
     F = ctx.facts("default")
     entry_width(ctx, F)
     xref_stream_widths(ctx, F)
@@ -263,3 +263,9 @@ def run(ctx):
     lexrules.check_strings(ctx, F, cr_required=True)
     prop_c09.length_rules(ctx, F)
     ctx.floor("R-TABLE", "C03 obligations", len(ctx.obligations), 40)
+
+
+def run(ctx):
+    _run(ctx)
+    import readerrules
+    readerrules.run(ctx, ctx.facts("default"), ("R1",))
